@@ -174,6 +174,45 @@ def asciiAgreeOn (t : List URow) (f : List (Int × Int)) : Bool :=
     lower a == KeyEnc.asciiUni.toLower a &&
     (List.range 128).all fun (b : Nat) => fold a b == KeyEnc.asciiUni.foldEq a b
 
+/-- One chord of a character key under the legacy and a kitty encoding (`rest` = further code points of a
+    grapheme cluster typed on the key: `xpg` ops; empty for `xpu`). -/
+def xpuCore (kind cls ut ft num fin key mods sh form bt sl sk : String) (rest : List Int) (impl : String) : Option String :=
+    match parseU? ut, parseF? ft, parseSeq? sl, parseSeq? sk, parseBinds? bt,
+          num.toInt?, fin.toInt?, key.toInt?, mods.toNat?, sh.toInt?, form.toNat? with
+    | some t, some f, some seqL, some seqK, some binds, some num, some fin, some key, some mods, some sh, some form =>
+      let u := mkUni t f
+      let kl := decodeKey u seqL
+      let kk := decodeKey u seqK
+      let bits (k : Key) : String := String.join (binds.map fun (r, m) => b01 («matches» u k r m))
+      let model := s!"{showStr (keyString u kl)}|{showStr (keyString u kk)}|{bits kl}|{bits kk}"
+      let fm : KeyEnc.Form := { withShifted := bit form 0, withBase := bit form 1, withMods := bit form 2,
+                                withEvent := bit form 3, withText := bit form 4 }
+      let produced := if mods % 2 = 1 then sh else key
+      let c : KeyEnc.Chord := { key, mods, shifted := sh, text := if fm.withText then produced :: rest else [] }
+      let v :=
+        if !(num = key ∧ fin = 117 ∧ validRune key = true ∧ lookup2 (key, 117) KeyEnc.functional = none) then
+          "FAIL generator: not a character key"
+        else if KeyEnc.kittySeq num fin c fm ≠ seqK then "FAIL generator/parser: kitty sequence differs from Spec.kittySeq"
+        else if rest = [] ∧ KeyEncUni.legacyChar key sh mods ≠ some seqL then "FAIL generator/parser: legacy sequence differs from Spec.legacyChar"
+        else if rest ≠ [] ∧ (seqL ≠ .print (produced :: rest) ∨ !fm.withText ∨ mods > 1) then "FAIL generator/parser: legacy sequence is not the grapheme cluster"
+        else if rest ≠ [] ∧ showKey kl ≠ showKey kk then s!"FAIL xpg[{kind} {cls}] the two reports of the cluster decode to different events: {showKey kl} vs {showKey kk}"
+        else match impl.splitOn "|" with
+        | [a, b, c, d] =>
+          if a ≠ b then s!"FAIL xpu[{kind} {cls}] String() differs between the legacy and the kitty report: {a} vs {b}"
+          else if c ≠ d then
+            let idx := (List.zip c.toList d.toList).findIdx (fun (p : Char × Char) => p.1 != p.2)
+            match binds[idx]? with
+            | some (r, m) =>
+              let rel := if r = key then "the key itself" else if r = sh then "the shifted character"
+                         else if u.toUpper r = key then "a lower-case rune whose upper case is the key"
+                         else if r = u.toUpper key then "ToUpper of the key" else "a related rune"
+              s!"FAIL xpu[{kind} {cls}] binding ({r}, mods {m}) [{rel}] matches under one encoding only"
+            | none => s!"FAIL xpu[{kind} {cls}] bindings differ"
+          else "ok"
+        | _ => "FAIL malformed impl"
+      some s!"{model}\t{impl}\t{v}"
+    | _, _, _, _, _, _, _, _, _, _, _ => none
+
 def stepUni (op : List String) (impl : String) : Option String :=
   match op with
   | ["hypa", ut, ft] =>
@@ -200,39 +239,11 @@ def stepUni (op : List String) (impl : String) : Option String :=
       some s!"{model}\t{impl}\t-"
     | _, _, _ => none
   | ["xpu", kind, cls, ut, ft, num, fin, key, mods, sh, form, bt, sl, sk] =>
-    match parseU? ut, parseF? ft, parseSeq? sl, parseSeq? sk, parseBinds? bt,
-          num.toInt?, fin.toInt?, key.toInt?, mods.toNat?, sh.toInt?, form.toNat? with
-    | some t, some f, some seqL, some seqK, some binds, some num, some fin, some key, some mods, some sh, some form =>
-      let u := mkUni t f
-      let kl := decodeKey u seqL
-      let kk := decodeKey u seqK
-      let bits (k : Key) : String := String.join (binds.map fun (r, m) => b01 («matches» u k r m))
-      let model := s!"{showStr (keyString u kl)}|{showStr (keyString u kk)}|{bits kl}|{bits kk}"
-      let fm : KeyEnc.Form := { withShifted := bit form 0, withBase := bit form 1, withMods := bit form 2,
-                                withEvent := bit form 3, withText := bit form 4 }
-      let produced := if mods % 2 = 1 then sh else key
-      let c : KeyEnc.Chord := { key, mods, shifted := sh, text := if fm.withText then [produced] else [] }
-      let v :=
-        if !(num = key ∧ fin = 117 ∧ validRune key = true ∧ lookup2 (key, 117) KeyEnc.functional = none) then
-          "FAIL generator: not a character key"
-        else if KeyEnc.kittySeq num fin c fm ≠ seqK then "FAIL generator/parser: kitty sequence differs from Spec.kittySeq"
-        else if KeyEncUni.legacyChar key sh mods ≠ some seqL then "FAIL generator/parser: legacy sequence differs from Spec.legacyChar"
-        else match impl.splitOn "|" with
-        | [a, b, c, d] =>
-          if a ≠ b then s!"FAIL xpu[{kind} {cls}] String() differs between the legacy and the kitty report: {a} vs {b}"
-          else if c ≠ d then
-            let idx := (List.zip c.toList d.toList).findIdx (fun (p : Char × Char) => p.1 != p.2)
-            match binds[idx]? with
-            | some (r, m) =>
-              let rel := if r = key then "the key itself" else if r = sh then "the shifted character"
-                         else if u.toUpper r = key then "a lower-case rune whose upper case is the key"
-                         else if r = u.toUpper key then "ToUpper of the key" else "a related rune"
-              s!"FAIL xpu[{kind} {cls}] binding ({r}, mods {m}) [{rel}] matches under one encoding only"
-            | none => s!"FAIL xpu[{kind} {cls}] bindings differ"
-          else "ok"
-        | _ => "FAIL malformed impl"
-      some s!"{model}\t{impl}\t{v}"
-    | _, _, _, _, _, _, _, _, _, _, _ => none
+    xpuCore kind cls ut ft num fin key mods sh form bt sl sk [] impl
+  | ["xpg", kind, cls, ut, ft, num, fin, key, mods, sh, form, rt, bt, sl, sk] =>
+    match sepInts? "." rt with
+    | some rest => if rest.isEmpty then none else xpuCore kind cls ut ft num fin key mods sh form bt sl sk rest impl
+    | none => none
   | _ => none
 
 def step (line : String) : String :=
@@ -388,6 +399,7 @@ def genAgrees (line : String) : Bool :=
      | _, _ => true)
   | ["xp", ut, ft, _, _, _, _, _, _, bt, sl, sk] => xpOK ut ft sl sk bt
   | ["xpu", _, _, ut, ft, _, _, _, _, _, _, bt, sl, sk] => xpOK ut ft sl sk bt
+  | ["xpg", _, _, ut, ft, _, _, _, _, _, _, _, bt, sl, sk] => xpOK ut ft sl sk bt
   | _ => true
 
 def stepTied (line : String) : String :=
